@@ -19,19 +19,31 @@ def splitOnColon : Str → List Str
 def digitVal (c : Char) : Option Nat :=
   if '0' ≤ c ∧ c ≤ '9' then some (c.toNat - '0'.toNat) else none
 
-/-- strconv.Atoi restricted to unsigned decimal strings (what fmt.Sprintf("%v:%v", file, line) produces) -/
-def atoi : Str → Option Nat
+/-- unsigned decimal digits -/
+def atoiNat : Str → Option Nat
   | [] => none
   | cs => cs.foldl (fun acc c => match acc, digitVal c with
       | some a, some d => some (a * 10 + d)
       | _, _ => none) (some 0)
+
+/-- strconv.Atoi: optional sign, decimal digits, int64 range -/
+def atoi : Str → Option Int
+  | '-' :: cs => match atoiNat cs with
+    | some n => if n ≤ 9223372036854775808 then some (-(n : Int)) else none
+    | none => none
+  | '+' :: cs => match atoiNat cs with
+    | some n => if n ≤ 9223372036854775807 then some (n : Int) else none
+    | none => none
+  | cs => match atoiNat cs with
+    | some n => if n ≤ 9223372036854775807 then some (n : Int) else none
+    | none => none
 
 /-- errors.go splitFilename: (name, lineOffset) -/
 def splitFilename (fn : Str) : Str × Int :=
   match splitOnColon fn with
   | [name, num] =>
     match atoi num with
-    | some n => (name, (n : Int) - 1)
+    | some n => (name, n - 1)
     | none => (name, 0)
   | _ => (fn, 0)
 
